@@ -114,6 +114,24 @@ mod tests {
     }
 
     #[test]
+    fn parse_ledger_accepts_last_line_without_newline() {
+        let input = "2024/4/10 Migros\n    Expenses:Grocery  10 CHF\n    Assets:Bank";
+        let got = parse_ledger_into(input);
+        assert_eq!(got.len(), 1);
+        assert_eq!(got[0].0.span, 0..input.len());
+        assert_eq!(parse_ledger_into("2024/4/10 Migros").len(), 1);
+    }
+
+    #[test]
+    fn parse_ledger_reports_error_at_end_of_input() {
+        // the error position is the end of the input
+        let r: Result<Vec<(ParsedContext, LedgerEntry)>, ParseError> =
+            parse_ledger(&ParseOptions::default(), "2024/4/10 Migros\n    Expenses ").collect();
+        let err = r.expect_err("posting ending in a single space must be rejected");
+        assert!(err.to_string().contains("account of the posting"));
+    }
+
+    #[test]
     fn parse_ledger_two_contiguous_transactions() {
         let input = indoc! {"
             2024/4/10 Migros
